@@ -82,3 +82,30 @@ def resolved_by_denser_mesh(name, Nthermo, measure, m4, levels=(8, 12)):
             ms.append(float('inf'))
         d.clearcache()
     return (ms[0] <= 1.5 * m4 and ms[-1] <= 0.5 * m4), ms
+
+
+def psd_contract_with_mesh_rule(mon, diff, name, nth, args, x, q, nm, scale, tol, prefix, tags, desc, symmetric=True):
+    """tensor contract (symmetry, crystal invariance, positive semi-definiteness) for the q-th output of Lij; a failure of the
+    PSD clause alone at the default k-point density is decided by the mesh-convergence rule."""
+    from vmon import contracts
+    from vmon.util import Mon
+    m2 = Mon(tags)
+    contracts.tensor2_contract(m2, diff.crys, x, nm, psd=True, scale=scale, tol=tol, prefix=prefix, symmetric=symmetric)
+    if m2.viol and all(v['clause'].startswith(prefix + ':psd') for v in m2.viol):
+        def meas(dd):
+            y = np.array(dd.Lij(*args)[q])
+            return max(0., -np.linalg.eigvalsh(0.5 * (y + y.T)).min()) / max(scale, np.abs(y).max())
+        lam = np.linalg.eigvalsh(0.5 * (x + x.T)).min()
+        ok, ms = resolved_by_denser_mesh(name, nth, meas, -lam / max(scale, np.abs(x).max()))
+        mon.count('checked_by_mesh_convergence')
+        if ok: m2.viol = []
+        else:
+            for v in m2.viol: v['detail'] += ' denser meshes: %s' % ms
+    for v in m2.viol:
+        v['detail'] += ' ' + str(desc)
+        mon.viol.append(v)
+    for key, val in m2.obs.items():
+        if key.startswith('eval:') or key == 'tensors_checked': mon.count(key, val)
+        elif key.startswith('min_'): mon.note_min(key[4:], val)
+        elif key.startswith('max_'): mon.note_max(key[4:], val)
+    mon.evals += m2.evals
